@@ -3,7 +3,9 @@
    - every error of the scan names a file of the project that was really opened (the root, or a
      regular file reached through INCLUDE), and its byte index lies inside that file;
    - an error raised by the scan loop carries the include chain of the scanner stack as it is at
-     that moment, innermost first; an error about a directive carries the directive's own tracer;
+     that moment, innermost first; an error about a directive carries the directive's own tracer,
+     and the directive was read from the file being read, under the stack as it is (the pending
+     directive is placed before an INCLUDE is entered: /repo c51680e);
    - every entry (file, offset) of every trace names a project file whose bytes at that offset
      spell INCLUDE;
    - the tracer of a directive is the chain of the stack at the moment its keyword was read when
@@ -369,8 +371,10 @@ Section Gen.
     destruct (lexkind_eqb (lk l) LKeyword) eqn:Hlk.
     - destruct (value_of (cs_sc s) l) as [kw| | |]; cbn [cbind]; try discriminate.
       destruct (beq kw (kind_keyword KInclude)).
-      + intros H. apply process_include_ok_inv in H.
-        destruct H as [x1 [path [content [_ [_ [_ [_ [_ ->]]]]]]]]. exact Hs.
+      + destruct (flush_cur s) as [s0| | |] eqn:H0; cbn [cbind]; try discriminate.
+        pose proof (flush_cur_all P _ _ Hs H0) as Hs0.
+        intros H. apply process_include_ok_inv in H.
+        destruct H as [x1 [path [content [_ [_ [_ [_ [_ ->]]]]]]]]. exact Hs0.
       + unfold Core.process_keyword.
         destruct (flush_cur s) as [s1| | |] eqn:H1; cbn [cbind]; try discriminate.
         pose proof (flush_cur_all P _ _ Hs H1) as Hs1.
@@ -424,8 +428,10 @@ Section Gen.
     destruct (lexkind_eqb (lk l) LKeyword) eqn:Hlk.
     - destruct (value_of (cs_sc s) l) as [kw| | |]; cbn [cbind]; try discriminate.
       destruct (beq kw (kind_keyword KInclude)).
-      + intros H. apply process_include_ok_inv in H.
-        destruct H as [x1 [path [content [_ [_ [_ [_ [_ ->]]]]]]]]. left; reflexivity.
+      + destruct (flush_cur s) as [s0| | |] eqn:H0; cbn [cbind]; try discriminate.
+        destruct (flush_cur_keeps _ _ H0) as [_ [_ [Htr0 _]]].
+        intros H. apply process_include_ok_inv in H.
+        destruct H as [x1 [path [content [_ [_ [_ [_ [_ ->]]]]]]]]. left; simpl; exact Htr0.
       + unfold Core.process_keyword.
         destruct (flush_cur s) as [s1| | |] eqn:H1; cbn [cbind]; try discriminate.
         pose proof (directive_tracer_flush _ _ H1) as Htr.
@@ -453,6 +459,63 @@ Section Gen.
         { intros H; inversion H; subst. left; reflexivity. }
         destruct (lexkind_eqb (lk l) LContextExplicitOpening); [|discriminate].
         intros H; inversion H; subst. left; reflexivity.
+  Qed.
+
+  (* after a successful INCLUDE no directive is pending: the one read before has been placed *)
+  Lemma process_include_cur s s0 l s' :
+    flush_cur s = COk s0 -> Core.process_include jsc_len enum_len files banned s0 l = COk s' -> cs_cur s' = None.
+  Proof.
+    intros H0 H. destruct (flush_cur_keeps _ _ H0) as [_ [_ [_ Hc0]]].
+    apply process_include_ok_inv in H. destruct H as [x1 [path [content [_ [_ [_ [_ [_ ->]]]]]]]]. exact Hc0.
+  Qed.
+
+  (* the pending directive after a lexeme: the one that was pending (parameters, annotation, body
+     added), or the one the keyword creates *)
+  Lemma process_lexeme_cur_gen s l s' :
+    (forall d, cs_cur s = Some d -> P d) ->
+    (forall d, lexkind_eqb (lk l) LKeyword = true -> d_kw d = coords_of (cs_sc s) l ->
+               d_trace d = fst (directive_tracer s) -> P d) ->
+    process_lexeme s l = COk s' -> forall d, cs_cur s' = Some d -> P d.
+  Proof.
+    intros Hc Hnew. unfold Core.process_lexeme.
+    destruct (lexkind_eqb (lk l) LKeyword) eqn:Hlk.
+    - destruct (value_of (cs_sc s) l) as [kw| | |]; cbn [cbind]; try discriminate.
+      destruct (beq kw (kind_keyword KInclude)).
+      + destruct (flush_cur s) as [s0| | |] eqn:H0; cbn [cbind]; try discriminate.
+        intros H d Hd. rewrite (process_include_cur _ _ _ _ H0 H) in Hd. discriminate.
+      + unfold Core.process_keyword.
+        destruct (flush_cur s) as [s1| | |] eqn:H1; cbn [cbind]; try discriminate.
+        destruct (flush_cur_keeps _ _ H1) as [Hsc _].
+        pose proof (directive_tracer_flush _ _ H1) as Htr.
+        destruct (_ && _); [discriminate|].
+        destruct (directive_type kw) as [k|]; [|discriminate].
+        destruct (kind_in k banned); [discriminate|].
+        destruct (directive_tracer s1) as [tr cache] eqn:Edt.
+        intros H; inversion H; subst; clear H.
+        simpl. intros d' H; inversion H; subst. apply Hnew; [reflexivity| |].
+        * simpl. rewrite Hsc. reflexivity.
+        * simpl. rewrite <- Htr. reflexivity.
+    - destruct (lexkind_eqb (lk l) LContextExplicitClosing).
+      + destruct (flush_cur s) as [s1| | |] eqn:H1; cbn [cbind]; try discriminate.
+        destruct (flush_cur_keeps _ _ H1) as [_ [_ [_ Hc1]]].
+        destruct (close_explicit _ _ _) as [r|]; [|discriminate].
+        intros H; inversion H; subst. simpl. intros d Hd. rewrite Hc1 in Hd. discriminate.
+      + destruct (cs_cur s) as [d|] eqn:Ec; [|discriminate].
+        pose proof (Hc d eq_refl) as Hd.
+        destruct (lexkind_eqb (lk l) LParameter).
+        { unfold process_parameter. rewrite Ec.
+          destruct (value_of (cs_sc s) l) as [v| | |]; cbn [cbind]; try discriminate.
+          destruct (append_parameter (d_kind d) v) as [k x|x|]; try discriminate.
+          - destruct (has_named d k); [discriminate|]. intros H; inversion H; subst.
+            simpl. intros d' H'; inversion H'; subst. eapply P_stable; [| |exact Hd]; reflexivity.
+          - intros H; inversion H; subst. simpl. intros d' H'; inversion H'; subst. eapply P_stable; [| |exact Hd]; reflexivity. }
+        destruct (lexkind_eqb (lk l) LAnnotation).
+        { destruct (value_of (cs_sc s) l); cbn [cbind]; try discriminate.
+          intros H; inversion H; subst. simpl. intros d' H'; inversion H'; subst. eapply P_stable; [| |exact Hd]; reflexivity. }
+        destruct (_ || _).
+        { intros H; inversion H; subst. simpl. intros d' H'; inversion H'; subst. eapply P_stable; [| |exact Hd]; reflexivity. }
+        destruct (lexkind_eqb (lk l) LContextExplicitOpening); [|discriminate].
+        intros H; inversion H; subst. simpl. intros d' H'; inversion H'; subst. eapply P_stable; [| |exact Hd]; reflexivity.
   Qed.
 End Gen.
 
@@ -537,7 +600,13 @@ Section Err.
     - destruct (value_of (cs_sc s) l) as [kw|e0|w|] eqn:Hv; cbn [cbind]; try discriminate.
       2:{ exfalso. eapply value_of_not_err; exact Hv. }
       destruct (beq kw (kind_keyword KInclude)).
-      + intros H. left. eapply process_include_err; eassumption.
+      + destruct (flush_cur s) as [s0|e1|w|] eqn:H0; cbn [cbind]; try discriminate.
+        2:{ intros H; injection H as <-. right. apply flush_cur_err. exact H0. }
+        destruct (flush_cur_keeps _ _ H0) as [Hsc0 [Hst0 _]].
+        intros H. left.
+        assert (Hl0 : loop_err s0 e).
+        { eapply (process_include_err s0 l e F); [rewrite Hsc0; exact Hinv|rewrite Hsc0; exact Hl|exact H]. }
+        destruct Hl0 as (A & B & C). unfold loop_err. rewrite <- Hsc0, <- Hst0. repeat split; assumption.
       + unfold Core.process_keyword.
         destruct (flush_cur s) as [s1|e1|w|] eqn:H1; cbn [cbind]; try discriminate.
         2:{ intros H; injection H as <-. right. apply flush_cur_err. exact H1. }
@@ -714,12 +783,19 @@ Section Inv.
     (exists content, project_file (c_file (d_kw d)) content /\ c_beg (d_kw d) <= N.of_nat (List.length content)) /\
     Forall entry_real (d_trace d).
 
+  (* every cached tracer is non-empty and real *)
   Definition cache_real (c : list (bytes * list (bytes * N))) : Prop :=
-    Forall (fun e => Forall entry_real (snd e)) c.
+    Forall (fun e => snd e <> [] /\ Forall entry_real (snd e)) c.
+
+  (* the pending directive was read from the file being read, under the scanner stack as it is
+     (the pending directive is placed before an INCLUDE is entered and before a file is left):
+     in particular its tracer is empty only outside any include *)
+  Definition cur_here (s : cstate) : Prop :=
+    forall d, cs_cur s = Some d -> c_file (d_kw d) = sc_file (cs_sc s) /\ (d_trace d = [] -> cs_stack s = []).
 
   Definition invA (s : cstate) : Prop :=
     project_file (sc_file (cs_sc s)) (sc_data (cs_sc s)) /\ (exists F, sinv (cs_sc s) F) /\
-    Forall entry_ok (cs_stack s) /\ cache_real (cs_tracers s) /\ state_all dir_ok s.
+    Forall entry_ok (cs_stack s) /\ cache_real (cs_tracers s) /\ state_all dir_ok s /\ cur_here s.
 
   Lemma dir_ok_stable d d' : d_kw d' = d_kw d -> d_trace d' = d_trace d -> dir_ok d -> dir_ok d'.
   Proof. unfold dir_ok. intros -> ->. tauto. Qed.
@@ -731,17 +807,23 @@ Section Inv.
     destruct Hin as [Hpf [F [_ [Hsp _]]]]. exists (sc_data x). split; assumption.
   Qed.
 
+  Lemma rev_nil_inv {A} (l : list A) : rev l = [] -> l = [].
+  Proof. intros H. apply (f_equal (@rev A)) in H. rewrite rev_involutive in H. exact H. Qed.
+
   Lemma directive_tracer_real s :
     Forall entry_ok (cs_stack s) -> cache_real (cs_tracers s) ->
-    Forall entry_real (fst (directive_tracer s)) /\ cache_real (snd (directive_tracer s)).
+    Forall entry_real (fst (directive_tracer s)) /\ cache_real (snd (directive_tracer s)) /\
+    (fst (directive_tracer s) = [] -> cs_stack s = []).
   Proof.
     intros Hst Hc. unfold directive_tracer. destruct (cs_stack s) as [|[top a] r] eqn:Es.
-    - split; [constructor|exact Hc].
+    - split; [constructor|]. split; [exact Hc|reflexivity].
     - destruct (find _ (cs_tracers s)) as [e|] eqn:Hf; cbn [fst snd].
-      + split; [|exact Hc]. apply find_some in Hf. destruct Hf as [Hin _].
-        unfold cache_real in Hc. rewrite Forall_forall in Hc. apply (Hc e Hin).
+      + apply find_some in Hf. destruct Hf as [Hin _].
+        unfold cache_real in Hc. pose proof Hc as Hc'. rewrite Forall_forall in Hc'. destruct (Hc' e Hin) as [Hne Hre].
+        split; [exact Hre|]. split; [exact Hc|]. intros H; contradiction.
       + assert (Hr : Forall entry_real (rev (stack_trace ((top, a) :: r)))) by (apply Forall_rev, stack_real; exact Hst).
-        split; [exact Hr|]. constructor; [exact Hr|exact Hc].
+        assert (Hne : rev (stack_trace ((top, a) :: r)) <> []) by (intros H; apply rev_nil_inv in H; discriminate).
+        split; [exact Hr|]. split; [constructor; [split; assumption|exact Hc]|]. intros H; contradiction.
   Qed.
 
   Lemma content_bytes p c : fs_stat files p = Some (FFile c) -> Forall isb c.
@@ -752,13 +834,13 @@ Section Inv.
 
   Lemma scan_step_invA s s' : invA s -> scan_step s s' -> invA s'.
   Proof.
-    intros (Hpf & [F Hinv] & Hstk & Hcache & Hall) H.
+    intros (Hpf & [F Hinv] & Hstk & Hcache & Hall & Hcur) H.
     pose proof (sc_next_sinv jsc_len enum_len (cs_sc s) F jsc_sane enum_sane Hinv) as Hn.
     destruct H as [x1 l s' En Hp | x1 s1 x at_ rest En Hf Hu Hst].
     - rewrite En in Hn. destruct Hn as (F' & Hinv1 & Hlb & Hle & HF' & Hsz & _).
       destruct (sc_next_same_file _ _ _ _ _ En) as [Hfile [Hdata Hsize]].
       assert (Hpf1 : project_file (sc_file x1) (sc_data x1)) by (rewrite Hfile, Hdata; exact Hpf).
-      destruct (directive_tracer_real (upd_sc s x1) Hstk Hcache) as [Htr1 Htr2].
+      destruct (directive_tracer_real (upd_sc s x1) Hstk Hcache) as [Htr1 [Htr2 Htr3]].
       assert (Hall' : state_all dir_ok s').
       { eapply (process_lexeme_all_gen jsc_len enum_len files banned dir_ok dir_ok_stable (upd_sc s x1) l s'); [exact Hall| |exact Hp].
         intros d _ Hkw Htr. split.
@@ -767,32 +849,46 @@ Section Inv.
         - rewrite Htr. exact Htr1. }
       assert (Hcache' : cache_real (cs_tracers s')).
       { destruct (process_lexeme_tracers jsc_len enum_len files banned _ _ _ Hp) as [->|[_ ->]]; [exact Hcache|exact Htr2]. }
-      destruct (process_lexeme_stack _ _ _ _ _ _ _ Hp) as [[Hsc Hst]|[kw [Hlk [Hv [Hi Hinc]]]]].
-      + unfold invA. rewrite Hsc, Hst. cbn [cs_sc cs_stack upd_sc].
-        split; [exact Hpf1|]. split; [exists F'; exact Hinv1|]. split; [exact Hstk|]. split; assumption.
-      + apply process_include_ok_inv in Hinc.
-        destruct Hinc as [x2 [path [content [Hparam [Hval [Hstat [_ [Hf2 ->]]]]]]]].
-        destruct Hparam as [_ [pl [raw [En2 _]]]]. simpl in En2, Hstat, Hf2, Hv.
+      (* the pending directive after the lexeme, as long as the stack is the same *)
+      assert (Hcur' : forall d, cs_cur s' = Some d ->
+                        c_file (d_kw d) = sc_file x1 /\ (d_trace d = [] -> cs_stack s = [])).
+      { apply (process_lexeme_cur_gen jsc_len enum_len files banned
+                 (fun d => c_file (d_kw d) = sc_file x1 /\ (d_trace d = [] -> cs_stack s = [])) ) with (s := upd_sc s x1) (l := l).
+        - intros d d' -> ->. tauto.
+        - intros d Hd. destruct (Hcur d Hd) as [H1 H2]. split; [rewrite Hfile; exact H1|exact H2].
+        - intros d _ Hkw Htr. split; [rewrite Hkw; reflexivity|]. rewrite Htr. exact Htr3.
+        - exact Hp. }
+      destruct (process_lexeme_stack _ _ _ _ _ _ _ Hp) as [[Hsc Hst]|[kw [s0 [Hlk [Hv [Hi [H0 Hinc]]]]]]].
+      + unfold invA, cur_here. rewrite Hsc, Hst. cbn [cs_sc cs_stack upd_sc].
+        split; [exact Hpf1|]. split; [exists F'; exact Hinv1|]. split; [exact Hstk|]. split; [exact Hcache'|].
+        split; [exact Hall'|exact Hcur'].
+      + pose proof (process_include_cur jsc_len enum_len files banned _ _ _ _ H0 Hinc) as Hnone.
+        destruct (flush_cur_keeps _ _ H0) as [Hsc0 [Hst0 _]]. cbn [cs_sc cs_stack upd_sc] in Hsc0, Hst0.
+        apply process_include_ok_inv in Hinc.
+        destruct Hinc as [x2 [path [content [Hparam [Hval [Hstat [_ [Hf2 Hs']]]]]]]].
+        destruct Hparam as [_ [pl [raw [En2 _]]]]. rewrite Hsc0 in En2, Hstat, Hf2. simpl in Hv.
+        rewrite Hsc0, Hst0 in Hs'.
         pose proof (sc_next_sinv jsc_len enum_len x1 F' jsc_sane enum_sane Hinv1) as Hn2.
         rewrite En2 in Hn2. destruct Hn2 as (F'' & Hinv2 & _ & _ & _ & _ & HFF).
         destruct (sc_next_same_file _ _ _ _ _ En2) as [Hfile2 [Hdata2 Hsize2]].
         apply beq_eq in Hi. subst kw. apply value_spells in Hv. destruct Hv as [Hsp [Hlen _]].
         change (kind_keyword KInclude) with kw_include in *.
         assert (Hlen7 : N.of_nat (List.length kw_include) = 7) by reflexivity.
-        unfold invA; cbn [cs_sc cs_stack cs_tracers upd_stack upd_sc new_scanner sc_file sc_data].
-        split; [|split; [|split; [|split; [exact Hcache|exact Hall']]]].
+        unfold invA, cur_here. rewrite Hnone. rewrite Hs' in Hcache', Hall'. rewrite Hs'.
+        cbn [cs_sc cs_stack cs_tracers upd_stack upd_sc new_scanner sc_file sc_data] in *.
+        split; [|split; [|split; [|split; [exact Hcache'|split; [exact Hall'|intros d Hd; discriminate]]]]].
         * split; [|exact Hstat]. destruct Hpf1 as [Hr _]. apply ir_step; assumption.
         * exists 0. apply new_scanner_sinv. eapply content_bytes; exact Hstat.
         * constructor; [|exact Hstk]. unfold entry_ok. cbn [fst snd]. split.
           -- rewrite Hfile2, Hdata2. exact Hpf1.
           -- exists F''. split; [exact Hinv2|]. split; [rewrite Hdata2; exact Hsp|]. lia.
-    - destruct (flush_cur_keeps _ _ Hf) as [_ [Hst1 [Htr1 _]]]. simpl in Hst1, Htr1.
+    - destruct (flush_cur_keeps _ _ Hf) as [_ [Hst1 [Htr1 Hc1]]]. simpl in Hst1, Htr1.
       pose proof (flush_cur_all dir_ok (upd_sc s x1) s1 Hall Hf) as Hall1.
       rewrite Hst1 in Hst. rewrite Hst in Hstk. inversion Hstk as [|? ? Hx Hrest]; subst.
       destruct Hx as [Hpfx [Fx [Hinvx _]]]. cbn [fst] in *.
-      unfold invA; cbn [cs_sc cs_stack cs_tracers upd_stack].
+      unfold invA, cur_here; cbn [cs_sc cs_stack cs_tracers cs_cur upd_stack].
       split; [exact Hpfx|]. split; [exists Fx; exact Hinvx|]. split; [exact Hrest|].
-      split; [rewrite Htr1; exact Hcache|]. exact Hall1.
+      split; [rewrite Htr1; exact Hcache|]. split; [exact Hall1|]. intros d Hd. rewrite Hc1 in Hd. discriminate.
   Qed.
 
   Lemma scan_reach_invA s s' : invA s -> scan_reach s s' -> invA s'.
@@ -804,7 +900,8 @@ Section Inv.
     split; [split; [apply ir_self|exact Hst]|].
     split; [exists 0; apply new_scanner_sinv; eapply content_bytes; exact Hst|].
     split; [constructor|]. split; [constructor|].
-    split; [intros d H; discriminate|]. split; constructor.
+    split; [split; [intros d H; discriminate|split; constructor]|].
+    intros d H; discriminate.
   Qed.
 
   (* (1) every error of the scan names a project file that was opened, and points into it *)
@@ -816,7 +913,7 @@ Section Inv.
     destruct (scan_project fuel (init_state root content)) as [s|e'|w|] eqn:Hr; cbn [cbind]; try discriminate.
     intros H; injection H as ->.
     destruct (scan_project_err_reach jsc_len enum_len files banned fuel _ _ Hr) as [s0 [Hre H1]].
-    pose proof (scan_reach_invA _ _ (init_invA content Hroot) Hre) as (Hpf & [F Hinv] & _ & _ & Hall).
+    pose proof (scan_reach_invA _ _ (init_invA content Hroot) Hre) as (Hpf & [F Hinv] & _ & _ & Hall & _).
     pose proof (iter_err_shape jsc_len enum_len jsc_sane enum_sane files banned s0 e F Hinv H1) as Hsh.
     destruct Hsh as [Hf Hi _|d Hc Hf Hi _].
     - exists (sc_data (cs_sc s0)). rewrite Hf. split; [exact Hpf|]. destruct Hinv as [Hs _]. rewrite <- Hs. exact Hi.
@@ -824,32 +921,37 @@ Section Inv.
       exists c. rewrite Hf, Hi. split; assumption.
   Qed.
 
-  (* (2) the trace of an error of the scan: raised in a reachable state s,
-       - by the scan loop: in the file being read, with the include chain of the stack of s;
-       - about the pending directive d: at d's keyword, with d's tracer; when that is empty (d was
-         read outside any include) with the include chain of the stack of s, whatever file is read now;
+  (* (2) the trace of an error of the scan: raised in the iteration of the loop that starts in a
+     reachable state s, it lies in the file s reads, and
+       - raised by the scan loop: it carries the include chain of the stack of s;
+       - about the pending directive d: it lies at d's keyword and carries d's tracer (d was read
+         from the file s reads, under the stack of s: the pending directive is placed before an
+         INCLUDE is entered and before a file is left);
      and in every case every entry of the trace is real *)
   Theorem scan_error_trace_lemma fuel content e :
     fs_stat files root = Some (FFile content) ->
     scan_project fuel (init_state root content) = CErr e ->
-    exists s, scan_reach (init_state root content) s /\
+    exists s, scan_reach (init_state root content) s /\ scan_project 1 s = CErr e /\
       Forall entry_real (include_chain (cs_stack s)) /\
-      ((ce_file e = sc_file (cs_sc s) /\ ce_trace e = include_chain (cs_stack s)) \/
+      ce_file e = sc_file (cs_sc s) /\
+      (ce_trace e = include_chain (cs_stack s) \/
        (exists d, cs_cur s = Some d /\ ce_file e = c_file (d_kw d) /\ ce_idx e = c_beg (d_kw d) /\
-                  ce_trace e = match d_trace d with [] => include_chain (cs_stack s) | _ => rev (d_trace d) end)) /\
+                  ce_trace e = rev (d_trace d))) /\
       Forall entry_real (ce_trace e).
   Proof.
     intros Hroot Hr.
     destruct (scan_project_err_reach jsc_len enum_len files banned fuel _ _ Hr) as [s0 [Hre H1]].
-    pose proof (scan_reach_invA _ _ (init_invA content Hroot) Hre) as (Hpf & [F Hinv] & Hstk & _ & Hall).
+    pose proof (scan_reach_invA _ _ (init_invA content Hroot) Hre) as (Hpf & [F Hinv] & Hstk & _ & Hall & Hcur).
     pose proof (iter_err_shape jsc_len enum_len jsc_sane enum_sane files banned s0 e F Hinv H1) as Hsh.
     pose proof (stack_real _ Hstk) as Hreal. rewrite stack_trace_is_chain in Hreal.
-    exists s0. split; [exact Hre|]. split; [exact Hreal|].
+    exists s0. split; [exact Hre|]. split; [exact H1|]. split; [exact Hreal|].
     destruct Hsh as [Hf Hi Ht|d Hc Hf Hi Ht]; rewrite stack_trace_is_chain in Ht.
-    - split; [left; split; assumption|]. rewrite Ht. exact Hreal.
-    - split; [right; exists d; repeat split; assumption|]. rewrite Ht.
-      destruct Hall as [Hcur _]. destruct (Hcur d Hc) as [_ Htr].
-      destruct (d_trace d) eqn:Ed; [exact Hreal|]. apply Forall_rev. exact Htr.
+    - split; [exact Hf|]. split; [left; exact Ht|]. rewrite Ht. exact Hreal.
+    - destruct (Hcur d Hc) as [Hfile Hnil].
+      assert (Ht' : ce_trace e = rev (d_trace d)).
+      { rewrite Ht. destruct (d_trace d) eqn:Ed; [|reflexivity]. rewrite (Hnil eq_refl). reflexivity. }
+      split; [rewrite Hf; exact Hfile|]. split; [right; exists d; repeat split; assumption|].
+      rewrite Ht'. destruct Hall as [Hcd _]. destruct (Hcd d Hc) as [_ Htr]. apply Forall_rev. exact Htr.
   Qed.
 
   (* ---- the tracer cache: coherent when no file holds two INCLUDEs ---- *)
@@ -918,22 +1020,24 @@ Section Inv.
 
   Lemma scan_step_coh s s' : invA s -> coh s -> scan_step s s' -> coh s'.
   Proof.
-    intros (Hpf & _ & Hstk & _ & _) (M & Hnd & Htail & Hcin & Hor) H.
+    intros (Hpf & _ & Hstk & _ & _ & _) (M & Hnd & Htail & Hcin & Hor) H.
     destruct H as [x1 l s' En Hp | x1 s1 x at_ rest En Hf Hu Hst].
     - destruct (sc_next_same_file _ _ _ _ _ En) as [Hfile [Hdata Hsize]].
-      destruct (process_lexeme_stack _ _ _ _ _ _ _ Hp) as [[Hsc Hst]|[kw [Hlk [Hv [Hi Hinc]]]]].
+      destruct (process_lexeme_stack _ _ _ _ _ _ _ Hp) as [[Hsc Hst]|[kw [s0 [Hlk [Hv [Hi [H0 Hinc]]]]]]].
       + exists M. rewrite Hst. cbn [cs_stack upd_sc]. split; [exact Hnd|]. split; [exact Htail|]. split.
         * destruct (process_lexeme_tracers jsc_len enum_len files banned _ _ _ Hp) as [->|[_ ->]]; [exact Hcin|].
           apply (directive_tracer_cache (upd_sc s x1) M Htail Hcin).
         * destruct Hor as [Hm|Hs]; [left; exact Hm|right]. rewrite Hsc. cbn [cs_sc upd_sc].
           destruct (spent_next _ _ _ Hs En) as [H1 _]. exact H1.
-      + apply process_include_ok_inv in Hinc.
-        destruct Hinc as [x2 [path [content [_ [_ [_ [Hnin [Hf2 ->]]]]]]]].
-        simpl in Hnin, Hf2, Hv.
+      + destruct (flush_cur_keeps _ _ H0) as [Hsc0 [Hst0 [Htr0 _]]]. cbn [cs_sc cs_stack cs_tracers upd_sc] in Hsc0, Hst0, Htr0.
+        apply process_include_ok_inv in Hinc.
+        destruct Hinc as [x2 [path [content [_ [_ [_ [Hnin [Hf2 Hs']]]]]]]].
+        unfold stack_names in Hnin. rewrite Hsc0, Hst0 in Hnin, Hs'. rewrite Hsc0 in Hf2. subst s'.
+        simpl in Hv.
         apply beq_eq in Hi. subst kw. apply value_spells in Hv. destruct Hv as [Hsp _].
         change (kind_keyword KInclude) with kw_include in *.
         destruct Hor as [Hm|Hs].
-        * subst M. exists ((x2, lb l) :: cs_stack s). cbn [cs_stack cs_tracers cs_sc upd_stack upd_sc].
+        * subst M. exists ((x2, lb l) :: cs_stack s). cbn [cs_stack cs_tracers cs_sc upd_stack upd_sc]. rewrite Htr0.
           split; [|split; [apply is_tail_refl|split; [|left; reflexivity]]].
           -- simpl. constructor; [|exact Hnd]. unfold name_of at 1. cbn [fst]. rewrite Hf2. exact Hnin.
           -- intros n tr Hin. destruct (Hcin n tr Hin) as [t [Ht Hrest]]. exists t. split; [apply is_tail_cons; exact Ht|exact Hrest].
@@ -958,18 +1062,36 @@ Section Inv.
   Lemma read_at_stable s0 d d' : d_kw d' = d_kw d -> d_trace d' = d_trace d -> read_at s0 d -> read_at s0 d'.
   Proof. unfold read_at. intros -> ->. tauto. Qed.
 
-  Definition invB (s0 s : cstate) : Prop := coh s /\ state_all (read_at s0) s.
+  (* the pending directive carries the include chain of the stack as it is *)
+  Definition cur_exact (s : cstate) : Prop :=
+    forall d, cs_cur s = Some d -> d_trace d = rev (include_chain (cs_stack s)).
+
+  Definition invB (s0 s : cstate) : Prop := coh s /\ state_all (read_at s0) s /\ cur_exact s.
 
   Lemma scan_step_invB s0 s s' : scan_reach s0 s -> invA s -> invB s0 s -> scan_step s s' -> invB s0 s'.
   Proof.
-    intros Hre HA [Hcoh Hall] Hstep. split; [eapply scan_step_coh; eassumption|].
+    intros Hre HA [Hcoh [Hall Hcx]] Hstep. split; [eapply scan_step_coh; eassumption|].
     destruct Hcoh as (M & Hnd & Htail & Hcin & _).
     destruct Hstep as [x1 l s' En Hp | x1 s1 x at_ rest En Hf Hu Hst].
-    - eapply (process_lexeme_all_gen jsc_len enum_len files banned (read_at s0) (read_at_stable s0) (upd_sc s x1) l s'); [exact Hall| |exact Hp].
-      intros d Hlk Hkw Htr. exists s, x1, l. repeat split; try assumption.
-      rewrite Htr. rewrite <- stack_trace_is_chain.
-      apply (directive_tracer_exact (upd_sc s x1) M Hnd Htail Hcin).
-    - exact (flush_cur_all (read_at s0) (upd_sc s x1) s1 Hall Hf).
+    - pose proof (directive_tracer_exact (upd_sc s x1) M Hnd Htail Hcin) as Hexact. cbn [cs_stack upd_sc] in Hexact.
+      rewrite stack_trace_is_chain in Hexact.
+      split.
+      + eapply (process_lexeme_all_gen jsc_len enum_len files banned (read_at s0) (read_at_stable s0) (upd_sc s x1) l s'); [exact Hall| |exact Hp].
+        intros d Hlk Hkw Htr. exists s, x1, l. repeat split; try assumption.
+        rewrite Htr. exact Hexact.
+      + assert (Hcx' : forall d, cs_cur s' = Some d -> d_trace d = rev (include_chain (cs_stack s))).
+        { apply (process_lexeme_cur_gen jsc_len enum_len files banned
+                   (fun d => d_trace d = rev (include_chain (cs_stack s)))) with (s := upd_sc s x1) (l := l).
+          - intros d d' _ ->. tauto.
+          - exact Hcx.
+          - intros d _ _ Htr. rewrite Htr. exact Hexact.
+          - exact Hp. }
+        destruct (process_lexeme_stack _ _ _ _ _ _ _ Hp) as [[_ Hst]|[kw [s0' [_ [_ [_ [H0 Hinc]]]]]]].
+        * unfold cur_exact. rewrite Hst. exact Hcx'.
+        * intros d Hd. rewrite (process_include_cur jsc_len enum_len files banned _ _ _ _ H0 Hinc) in Hd. discriminate.
+    - split; [exact (flush_cur_all (read_at s0) (upd_sc s x1) s1 Hall Hf)|].
+      destruct (flush_cur_keeps _ _ Hf) as [_ [_ [_ Hc1]]].
+      intros d Hd. cbn [cs_cur upd_stack] in Hd. rewrite Hc1 in Hd. discriminate.
   Qed.
 
   Lemma scan_reach_invB s0 s : invA s0 -> invB s0 s0 -> scan_reach s0 s -> invB s0 s.
@@ -983,11 +1105,8 @@ Section Inv.
   Proof.
     split.
     - exists []. split; [constructor|]. split; [apply is_tail_refl|]. split; [intros n tr []|left; reflexivity].
-    - split; [intros d H; discriminate|]. split; constructor.
+    - split; [split; [intros d H; discriminate|split; constructor]|]. intros d H; discriminate.
   Qed.
-
-  Lemma include_chain_nil st : include_chain st = [] -> st = [].
-  Proof. destruct st as [|[x a] r]; [reflexivity|discriminate]. Qed.
 
   (* (2), directives: with at most one INCLUDE per file, every directive of the forest carries the
      include chain of the scanner stack at the moment its keyword was read *)
@@ -1000,38 +1119,28 @@ Section Inv.
     destruct (scan_project fuel (init_state root content)) as [s| | |] eqn:Hr; cbn [cbind]; try discriminate.
     intros H; injection H as <-. exists content. split; [reflexivity|].
     destruct (scan_project_reaches _ _ _ _ _ _ _ Hr) as [s0 [x1 [Hre [_ [Hfl _]]]]].
-    pose proof (scan_reach_invB _ _ (init_invA content Hroot) (init_invB content) Hre) as [_ Hall].
+    pose proof (scan_reach_invB _ _ (init_invA content Hroot) (init_invB content) Hre) as [_ [Hall _]].
     pose proof (flush_cur_all (read_at (init_state root content)) (upd_sc s0 x1) s Hall Hfl) as Hall'.
     apply Forall_forall. apply forest_all_dirs'.
     apply (forest_of_all_gen (read_at (init_state root content))). exact Hall'.
   Qed.
 
   (* (2), errors: with at most one INCLUDE per file the trace of every error is the include chain
-     of the stack of a reachable state s that reads the file the error is in (for an error about a
-     directive: the state in which the directive was read); except that an error about a directive
-     read in the root file (s has an empty stack) carries the chain of the state in which it is
-     raised *)
+     of the stack of the state in which it is raised (s = the reachable state in which the
+     iteration of the loop that raises it starts), and the error lies in the file that state reads *)
   Theorem trace_is_include_chain_lemma fuel content e :
     fs_stat files root = Some (FFile content) ->
     scan_project fuel (init_state root content) = CErr e ->
-    exists s, scan_reach (init_state root content) s /\ ce_file e = sc_file (cs_sc s) /\
-      (ce_trace e = include_chain (cs_stack s) \/
-       (cs_stack s = [] /\ exists s', scan_reach (init_state root content) s' /\ ce_trace e = include_chain (cs_stack s'))) /\
+    exists s, scan_reach (init_state root content) s /\ scan_project 1 s = CErr e /\
+      ce_file e = sc_file (cs_sc s) /\ ce_trace e = include_chain (cs_stack s) /\
       Forall entry_real (ce_trace e).
   Proof.
     intros Hroot Hr.
-    destruct (scan_error_trace_lemma fuel content e Hroot Hr) as [s0 [Hre [_ [Hcase Hreal]]]].
-    destruct Hcase as [[Hf Ht]|[d [Hc [Hf [_ Ht]]]]].
-    - exists s0. split; [exact Hre|]. split; [exact Hf|]. split; [left; exact Ht|exact Hreal].
-    - pose proof (scan_reach_invB _ _ (init_invA content Hroot) (init_invB content) Hre) as [_ [Hcur _]].
-      destruct (Hcur d Hc) as (sd & x1 & l & Hred & En & _ & Hkw & Htr).
-      destruct (sc_next_same_file _ _ _ _ _ En) as [Hfile _].
-      exists sd. split; [exact Hred|]. split; [rewrite Hf, Hkw; simpl; exact Hfile|]. split; [|exact Hreal].
-      destruct (d_trace d) as [|a r] eqn:Ed.
-      + right. split.
-        * apply include_chain_nil. symmetry in Htr. apply (f_equal (@rev _)) in Htr. rewrite rev_involutive in Htr. exact Htr.
-        * exists s0. split; assumption.
-      + left. rewrite Ht, Htr. apply rev_involutive.
+    destruct (scan_error_trace_lemma fuel content e Hroot Hr) as [s0 [Hre [H1 [_ [Hf [Hcase Hreal]]]]]].
+    exists s0. split; [exact Hre|]. split; [exact H1|]. split; [exact Hf|]. split; [|exact Hreal].
+    destruct Hcase as [Ht|[d [Hc [_ [_ Ht]]]]]; [exact Ht|].
+    pose proof (scan_reach_invB _ _ (init_invA content Hroot) (init_invB content) Hre) as [_ [_ Hcx]].
+    rewrite Ht, (Hcx d Hc). apply rev_involutive.
   Qed.
 
   (* without the hypothesis: every directive of the forest lies in a project file, its keyword
@@ -1044,7 +1153,7 @@ Section Inv.
     destruct (scan_project fuel (init_state root content)) as [s| | |] eqn:Hr; cbn [cbind]; try discriminate.
     intros H; injection H as <-.
     destruct (scan_project_reaches _ _ _ _ _ _ _ Hr) as [s0 [x1 [Hre [_ [Hfl _]]]]].
-    pose proof (scan_reach_invA _ _ (init_invA content Hroot) Hre) as (_ & _ & _ & _ & Hall).
+    pose proof (scan_reach_invA _ _ (init_invA content Hroot) Hre) as (_ & _ & _ & _ & Hall & _).
     pose proof (flush_cur_all dir_ok (upd_sc s0 x1) s Hall Hfl) as Hall'.
     apply Forall_forall. apply forest_all_dirs'. apply (forest_of_all_gen dir_ok). exact Hall'.
   Qed.
@@ -1061,7 +1170,7 @@ Proof.
   destruct (fs_stat files root) as [[content|]|] eqn:Hroot; try discriminate.
   destruct (Core.scan_project jsc_len enum_len files banned fuel (init_state root content)) as [s|e'|w|] eqn:Hr; cbn [cbind]; try discriminate.
   intros H; injection H as ->.
-  destruct (scan_error_trace_lemma jsc_len enum_len Hj He files Hb banned root fuel content e Hroot Hr) as [s [_ [_ [_ H]]]].
+  destruct (scan_error_trace_lemma jsc_len enum_len Hj He files Hb banned root fuel content e Hroot Hr) as [s [_ [_ [_ [_ [_ H]]]]]].
   exact H.
 Qed.
 
@@ -1126,14 +1235,26 @@ Example ex_stale_tracer_facts :
   Some (bs "b.jst", 0, CEJsightInInclude, [(bs "r.jst", 25)]).
 Proof. vm_compute. repeat split; reflexivity. Qed.
 
-(* a directive of the ROOT file that finds no place is only placed when the next keyword is read;
-   INCLUDE does not place it, so when the next keyword is in the included file the error about
-   r.jst (offset 11, line 2) carries the chain [(r.jst, 21)] of the file being read then *)
-Example ex_root_directive_foreign_trace :
+(* a directive of the ROOT file that finds no place, followed by an INCLUDE: it is placed -- and
+   diagnosed -- before the included file is entered (drainCurrentScanner calls
+   processCurrentDirective before processInclude: /repo c51680e), so the error about r.jst (offset
+   11, line 2) carries an EMPTY trace.  (Before the repair it was placed only when the first keyword
+   of a.jst was read and carried the chain [(r.jst, 21)] of the file being read then.) *)
+Example ex_root_directive_empty_trace :
   ex_err (scan_forest_with 1000 ex_len ex_len
     [(bs "r.jst", FFile (ex_line "JSIGHT 0.3" ++ ex_line "Version 1" ++ ex_line "INCLUDE a.jst"));
      (bs "a.jst", FFile (ex_line "TAG @x"))] [] (bs "r.jst")) =
-  Some (bs "r.jst", 11, CEIncorrectContext, [(bs "r.jst", 21)]).
+  Some (bs "r.jst", 11, CEIncorrectContext, []).
+Proof. vm_compute. reflexivity. Qed.
+
+(* the same one level down: the misplaced directive of a.jst before its INCLUDE carries the chain of
+   a.jst, not that of the file it includes *)
+Example ex_included_directive_own_trace :
+  ex_err (scan_forest_with 1000 ex_len ex_len
+    [(bs "r.jst", FFile (ex_line "JSIGHT 0.3" ++ ex_line "INCLUDE a.jst"));
+     (bs "a.jst", FFile (ex_line "Version 1" ++ ex_line "INCLUDE b.jst"));
+     (bs "b.jst", FFile (ex_line "TAG @x"))] [] (bs "r.jst")) =
+  Some (bs "a.jst", 0, CEIncorrectContext, [(bs "r.jst", 11)]).
 Proof. vm_compute. reflexivity. Qed.
 
 (* ---- the hypothesis cannot be dropped: a refutation, not only an example ----
@@ -1219,10 +1340,7 @@ Theorem trace_is_include_chain_two_includes_refuted_lemma :
     fs_stat files root = Some (FFile content) /\
     Core.scan_project ex_len ex_len files [] fuel (init_state root content) = CErr e /\
     ~ exists s, scan_reach ex_len ex_len files [] (init_state root content) s /\
-        ce_file e = sc_file (cs_sc s) /\
-        (ce_trace e = include_chain (cs_stack s) \/
-         (cs_stack s = [] /\ exists s', scan_reach ex_len ex_len files [] (init_state root content) s' /\
-                                        ce_trace e = include_chain (cs_stack s'))).
+        ce_file e = sc_file (cs_sc s) /\ ce_trace e = include_chain (cs_stack s).
 Proof.
   exists (ex_two_includes (ex_line "Body")), (bs "r.jst"), 1000%nat,
          (ex_line "JSIGHT 0.3" ++ ex_line "INCLUDE a.jst" ++ ex_line "INCLUDE b.jst"), ex_stale_error.
@@ -1233,12 +1351,9 @@ Proof.
   assert (He : run_ends ex_len ex_len (ex_two_includes (ex_line "Body")) [] 100 init = true) by (vm_compute; reflexivity).
   pose proof (reach_in_run _ _ _ _ 100 _ _ He Hre) as Hin.
   assert (Hall : forallb (fun s => negb (beq (bs "b.jst") (sc_file (cs_sc s)) &&
-                                       (tr_eqb [(bs "r.jst", 11)] (include_chain (cs_stack s)) ||
-                                        match cs_stack s with [] => true | _ => false end)))
+                                       tr_eqb [(bs "r.jst", 11)] (include_chain (cs_stack s))))
                          (run ex_len ex_len (ex_two_includes (ex_line "Body")) [] 100 init) = true) by (vm_compute; reflexivity).
   rewrite forallb_forall in Hall. specialize (Hall s Hin).
   cbn [ex_stale_error ce_file ce_trace] in Hf, Ht. rewrite <- Hf, beq_refl in Hall.
-  destruct Ht as [Ht|[Ht _]].
-  - rewrite <- Ht, tr_eqb_refl in Hall. discriminate.
-  - rewrite Ht in Hall. rewrite orb_true_r in Hall. discriminate.
+  rewrite <- Ht, tr_eqb_refl in Hall. discriminate.
 Qed.
